@@ -342,6 +342,14 @@ def check_reference(case: typing.Any, ctx: Ctx) -> Info:
     gap = case.get("gap", 0)
     filler = ["", "# a comment", "uint8 between", "@assert true", "void3"][gap % 5]
     source = "%s A = %s\n%s%s B = %s\n@sealed\n" % (type_text(spec1), value_text(v1, case.get("style", 0)), (filler + "\n") if gap else "", type_text(spec2), text2)
+    other = case.get("request")
+    if other is not None:
+        # the pair under test is the *response* of a service whose request declares - and uses - constants of the same names with
+        # other types / values: what A stands for is decided per section
+        ok_r, stored_r = expected(other["type"], other["value"])
+        if ok_r:
+            lit_r = ("true" if stored_r else "false") if isinstance(stored_r, bool) else "(%d/%d)" % (stored_r.numerator, stored_r.denominator)
+            source = "%s A = %s\n@assert A == %s\nbool B = A == %s\n@sealed\n---\n" % (type_text(other["type"]), value_text(other["value"], 0), lit_r, lit_r) + source
     d = ctx.scratch()
     try:
         os.makedirs(os.path.join(d, ROOT))
@@ -352,13 +360,14 @@ def check_reference(case: typing.Any, ctx: Ctx) -> Info:
         ctx.cleanup(d)
     if accept:
         require(ex is None, "valid-constant-rejected:by-reference:" + spec2[0], "accepted", "%s: %s" % (type(ex).__name__, ex), source)
-        consts = {c.name: c for c in res[0].constants}
+        section = res[0].response_type if isinstance(res[0], pydsdl.ServiceType) else res[0]
+        consts = {c.name: c for c in section.constants}
         _check_stored(consts["A"], spec1, stored1, source)
         _check_stored(consts["B"], spec2, stored2, source)
     else:
         require(ex is not None, "invalid-constant-accepted:by-reference:" + spec2[0], "InvalidDefinitionError", "accepted", source)
     near = val2 is not None and not isinstance(val2, bool) and spec2[0] != "bool" and _near_boundary(spec2, ["rat", val2.numerator, val2.denominator])
-    return Info(True, ["by-reference", "first:" + v1[0], "form:" + form, "accept" if accept else "reject"] + (["near-boundary"] if near else []), sample=source)
+    return Info(True, ["by-reference", "first:" + v1[0], "form:" + form, "accept" if accept else "reject"] + (["near-boundary"] if near else []) + (["response-of-a-service"] if "---" in source else []), sample=source)
 
 
 def _reference_cases() -> st.SearchStrategy:
@@ -368,8 +377,9 @@ def _reference_cases() -> st.SearchStrategy:
         st.sampled_from([True, False]).map(lambda b: {"type": ["bool"], "value": ["bool", b], "style": 0}),
     )
     seconds = st.one_of(st.sampled_from(all_types()), st.sampled_from([["uint", 8, "sat"], ["uint", 7, "sat"], ["int", 8], ["uint", 16, "sat"], ["float", 16, "sat"], ["bool"]]))
-    return st.tuples(firsts, seconds, st.integers(0, len(REF_FORMS) - 1), st.integers(0, 4)).map(
-        lambda t: {"first": {"type": t[0]["type"], "value": t[0]["value"]}, "style": t[0].get("style", 0), "second": t[1], "form": t[2], "gap": t[3]}
+    return st.tuples(firsts, seconds, st.integers(0, len(REF_FORMS) - 1), st.integers(0, 4), st.one_of(st.none(), st.none(), firsts)).map(
+        lambda t: {"first": {"type": t[0]["type"], "value": t[0]["value"]}, "style": t[0].get("style", 0), "second": t[1], "form": t[2], "gap": t[3],
+                   "request": None if t[4] is None else {"type": t[4]["type"], "value": t[4]["value"]}}
     )
 
 
